@@ -73,7 +73,7 @@ def generate(rng, tier, idx):
         for _ in range(rng.choice([0, 0, 1, 1, 2, 3])):
             faults.append([rng.choice(['drop', 'dup', 'move', 'insert', 'cut', 'nofinal', 'crlf', 'lead-blank', 'trail-blank',
                                        'trail-entry', 'lead-entry', 'undash', 'adddash', 'inject-hdr', 'concat', 'trail-ws',
-                                       'flip-body', 'swap-sig', 'sig-entry']), rng.randrange(0, 1000), rng.randrange(0, 1000)])
+                                       'flip-body', 'swap-sig', 'sig-entry', 'long-line', 'long-line']), rng.randrange(0, 1000), rng.randrange(0, 1000)])
         return {'prop': ID, 'mode': 'real', 'order_key': '0', 'payload': payload, 'final_nl': rng.random() < 0.85,
                 'faults': faults, 'not_dash_escaped': rng.random() < 0.15, 'verify': True}
     if rng.random() < 0.75:
@@ -269,6 +269,13 @@ def judge(text, cl, r, m, peer_texts, verify, real_truth=None):
         if r[0] != 'GE':
             vs.append(viol('frame.wrong-failure', '%s: %s' % (what, describe(r)), sig='%s:%s' % (r[0], r[1])))
             return vs, zone
+        if verify and any(len(l.encode('utf8', 'replace')) > 16000 for l in lines):
+            # a line beyond the peer's own line-length limit is not covered by the signature whatever follows it:
+            # refusing the Manifest is right, with whichever of the library's exceptions comes first
+            zone = 'line-beyond-peer-line-limit-rejected'
+            if m.openpgp_signed:
+                vs.append(viol('frame.marked-signed-unverified', '%s: load failed (%s) but openpgp_signed=%r' % (what, r[1], m.openpgp_signed), sig='flag'))
+            return vs, zone
         if cl['kind'] in ('signed', 'plain'):
             body_ok = canon(cl['body']) is not None
             if not body_ok:
@@ -352,6 +359,14 @@ def apply_fault(lines, f, sc):
         lines.insert(i, ['DATA injected 1', '', 'Hash: SHA1', '- DATA dashed 2', '-----BEGIN PGP SIGNATURE-----', BS, EG, 'junk'][b % 8])
     elif k == 'cut':
         del lines[i:]
+    elif k == 'long-line':
+        # a signed line padded beyond the peer's own line-length limit (gpg reads text lines in ~20000-byte pieces and
+        # does not hash trailing blanks), followed by tokens the signer never saw
+        body = [j for j, l in enumerate(lines) if l.startswith(('DATA ', 'IGNORE ', 'DIST ', '- DATA', 'TIMESTAMP '))]
+        if body:
+            j = body[a % len(body)]
+            pad = (19990, 19996, 20000, 20100, 40000, 65536)[b % 6]
+            lines[j] = lines[j] + ' ' * pad + (' SHA256 ' + 'e' * 64 if lines[j].lstrip('- ').startswith(('DATA', 'DIST')) else ' extra-token')
     elif k == 'lead-blank':
         lines.insert(0, '')
     elif k == 'trail-blank':
